@@ -144,16 +144,28 @@ def r04b(P, R):
             or (ev[0] == "ctor" and ev[1].split("::")[-1] in ("TypeMismatch", "UnknownVariable")) or (ev[0] in ("call", "enter") and ev[1].startswith(CK))
 
     def run(w, vk):
-        E = KindEval(P, want=want, enter=enter)
+        E = KindEval(P, want=want_plus, enter=enter)
         return E, E.run(f, {vi: V(vk), ti: V(w)})
 
-    def action(paths, vk):
+    def want_plus(ev):
+        return want(ev) or ev[0] in ("assign", "again")
+
+    def iterates_on_inner(evs, w):
+        """recursion spelled as a loop: the local that holds the expected type (it had kind `w`) is re-bound and the enclosing
+        `loop` goes round again — the same value is then checked against the component type"""
+        for i, e in enumerate(evs):
+            if e[0] == "assign" and e[3] == V(w):
+                if any(x[0] == "again" and x[1] != "ForLoop" for x in evs[i + 1:]):
+                    return True
+        return False
+
+    def action(paths, vk, w):
         mism = [bool(ev_ctors(evs, "TypeMismatch")) for _, evs, _ in paths]
         rec = []
         for _, evs, _ in paths:
             calls = recursions(evs)
-            rec.append(bool(calls) and (vk == "ListValue" or all(value_arg(c) == V(vk) for c in calls)))
-        anyrec = [bool(recursions(evs)) for _, evs, _ in paths]
+            rec.append((bool(calls) and (vk == "ListValue" or all(value_arg(c) == V(vk) for c in calls))) or iterates_on_inner(evs, w))
+        anyrec = [bool(recursions(evs)) or iterates_on_inner(evs, w) for _, evs, _ in paths]
         if not paths:
             return "?"
         if all(mism) and not any(anyrec):
@@ -173,13 +185,16 @@ def r04b(P, R):
                                ("List", {"ListValue": "recurse", "NullValue": "ok", "*": "recurse"})):
             for vk in VALUE_KINDS:
                 _, paths = run(wrapper, vk)
-                got = action(paths, vk)
+                got = action(paths, vk, wrapper)
                 exp = wantd.get(vk, wantd["*"])
                 decide(R, "R04-b", "table:%s x %s" % (wrapper, vk), None if got == "?" else got == exp,
                        "%s x %s -> %s" % (wrapper, vk, got),
                        "check_value decides (%s type, %s literal) as `%s`; input coercion requires `%s` (%s)"
                        % (wrapper, vk, got, exp, "null is valid for any nullable type; a non-list value coerces to a one-element list"),
                        "the paths of check_value for (%s type, %s literal) disagree (%d paths)" % (wrapper, vk, len(paths)), loc=f.loc())
+        # a literal for a named type is a mismatch iff the definition-level check says "incompatible": notes it returns along
+        # only decorate the report.  Reading them for the verdict is harmless as long as notes come with "incompatible" only
+        named_verdict(P, R, f, ivc, family, vi, ti)
         # variables: compatibility instead of literal typing, unknown variable reported
         verdicts, why = [], ""
         for w in KINDS:
@@ -202,6 +217,82 @@ def r04b(P, R):
                "a path for variables hands over to a function the evaluation did not enter", loc=f.loc())
     except TooComplex as ex:
         R.undecided("R04-b", "table", "abstract evaluation of %s gave up: %s" % (short(f.path), ex), loc=f.loc())
+
+
+_COLLECT = ("push", "extend", "insert", "append", "push_back", "extend_from_slice")
+
+
+def notes_while_compatible(P, ivc):
+    """can the definition-level check return notes together with a *compatible* verdict?  -> (type kind, value kind, what is noted)
+    of a path that does, or None.  Read off `(verdict, notes)` tuples: the notes local received something on the path and the
+    verdict component is known to be true."""
+    ti, vi = _idx(ivc, T_TYPEDEF), _idx(ivc, T_VALUE)
+    if ti is None or vi is None:
+        return None
+
+    def want(ev):
+        return ev[0] == "call" and ev[1].split("::")[-1] in _COLLECT
+    for k in ("InputObject", "Enum", "Scalar"):
+        for vk in VALUE_KINDS:
+            try:
+                E = KindEval(P, want=want)
+                paths = E.run(ivc, {ti: V(k), vi: V(vk)})
+            except TooComplex:
+                continue
+            for val, evs, src in paths:
+                if not (val is not None and val[0] == "t" and len(val[1]) == 2 and val[1][0] == B_TRUE and src is not None and src.get("k") == "Tup"):
+                    continue
+                info = src["es"][1]
+                while info.get("k") in ("AddrOf", "DropTemps", "Use"):
+                    info = info["e"]
+                if info.get("k") != "Path" or "local" not in info:
+                    continue
+                for e in evs:
+                    node = E.event_node(e)[0]
+                    b = node.get("recv", {})
+                    while b.get("k") in ("AddrOf", "DropTemps") or (b.get("k") == "Unary" and b.get("op") == "Deref"):
+                        b = b["e"]
+                    if b.get("k") == "Path" and b.get("local") == info["local"]:
+                        noted = sorted({norm(y.get("variant") or "").split("::")[-1] for a in node.get("args", []) for y in subnodes(a)
+                                        if y.get("k") == "Struct" and "rest" not in y and y.get("variant")})
+                        return k, vk, noted
+    return None
+
+
+def named_verdict(P, R, f, ivc, family, vi, ti):
+    fam = [P.fns[p] for p in sorted(family) if p in P.fns]
+    # does the decision to report TypeMismatch read the notes returned by the definition-level check?
+    reads_notes = False
+    try:
+        E = KindEval(P, want=lambda ev: ev[0] == "assume" or (ev[0] == "ctor" and ev[1].endswith("::TypeMismatch")),
+                     enter=lambda g: True if same_job(f, g) else None)
+        paths = E.run(f, {vi: V("ObjectValue"), ti: V("Named")})
+    except TooComplex:
+        paths = []
+    note_locals = set()
+    for g in fam:
+        for x in g.walk():
+            if x.get("k") == "Let" and x["pat"].get("k") == "Tuple" and x.get("init") is not None \
+                    and any(y.get("k") in ("Call", "MethodCall") and call_name(y) == ivc.path for y in subnodes(x["init"])):
+                for p in x["pat"]["ps"][1:]:
+                    note_locals |= {b["local"] for b in subnodes(p) if b.get("k") == "Binding"}
+    provs = {}
+    for _, evs, _ in paths:
+        if not ev_ctors(evs, "TypeMismatch"):
+            continue
+        for e in evs:
+            if e[0] == "assume":
+                node, fn = E.event_node(e)
+                if fn.path not in provs:
+                    provs[fn.path] = MProv(fn)
+                if any(y.get("k") == "Path" and y.get("local") in note_locals for y in source_nodes(P, provs[fn.path], node, depth=0)):
+                    reads_notes = True
+    witness = notes_while_compatible(P, ivc) if reads_notes else None
+    R.check("R04-b", "named-verdict", not (reads_notes and witness),
+            "a literal for a named type is reported iff the definition-level check finds it incompatible",
+            "check_value also reports TypeMismatch when is_value_compatible_type_def returns notes, and for a %s type and a %s literal it can "
+            "return a note (%s) together with a *compatible* verdict: a valid literal is reported as a type mismatch"
+            % ((witness or ("?", "?", []))[0], (witness or ("?", "?", []))[1], ", ".join((witness or ("", "", []))[2]) or "an entry"), loc=f.loc())
 
 
 def compat_site(P):
@@ -371,7 +462,7 @@ def r04d(P, R):
                             node, fn = E.event_node(e)
                             if fn.path not in provs:
                                 provs[fn.path] = MProv(fn)
-                            atoms |= provs[fn.path].deep_atoms(node)
+                            atoms |= E.event_atoms(e, provs)
                             first_only = first_only or first_match_then_test(P, provs[fn.path], node)
                 if first_only:
                     R.violated("R04-d", key, "fragment applicability for (scope %s, condition %s) is decided by `.%s(<membership test>)` followed by `.%s(..)` "
